@@ -544,3 +544,59 @@ def make_circuit(it, ctx, tag='c', wf=True, empty=False):
     h.obj = o
     h.S0 = S
     return o, h
+
+
+class UsersLoop:
+    """Loop `for operand in <ops>: circuit._add_user/_remove_user(operand, lab)` over an operand tuple of
+    symbolic arity, by the prefix-count view pc(k, x) = #{i < k : ops[i] = x}  (closed-form state per iteration).
+    sign = +1 (add) / -1 (remove)."""
+    _n = 0
+
+    def __init__(self, holder, get, sign):
+        self.h, self.get, self.sign = holder, get, sign
+        self.base = None
+
+    def applies(self, it, env, iterable):
+        return isinstance(iterable, OpsSeq) and iterable.concrete_len() is None
+
+    def _setup(self, it, env):
+        if self.base is not None:
+            return
+        UsersLoop._n += 1
+        ops, lab = self.get(it, env)
+        self.ops, self.lab = ops, lab
+        self.base = self.h.S
+        pc = z3.Function(f'pc!{UsersLoop._n}', I, LabelSort, I)
+        self.pc = pc
+        k, x = z3.Int('k!pc'), z3.Const('x!pc', LabelSort)
+        n = ops.n
+        ctx = it.ctx
+        ctx.assume(z3.ForAll([x], pc(0, x) == 0))
+        ctx.assume(z3.ForAll([k, x], z3.Implies(z3.And(k >= 0, k < n), pc(k + 1, x) == pc(k, x) + z3.If(ops.elem(k) == x, 1, 0)), patterns=[pc(k + 1, x)]))
+        # representation facts of tuples (background lemmas): the count view is the full prefix count; prefix counts are monotone
+        ctx.assume(z3.ForAll([x], pc(n, x) == ops.count(x)))
+        ctx.assume(z3.ForAll([k, x], z3.Implies(z3.And(k >= 0, k <= n), z3.And(pc(k, x) >= 0, pc(k, x) <= ops.count(x))), patterns=[pc(k, x)]))
+
+    def closed(self, k):
+        base, pc, lab, sg = self.base, self.pc, self.lab, self.sign
+        S = base.copy()
+        S.cnt = lambda G, U: z3.If(U == lab, base.cnt(G, U) + sg * pc(k, G), base.cnt(G, U))
+        S.tot = lambda G: base.tot(G) + sg * pc(k, G)
+        if sg > 0:
+            S.udom = lambda G: z3.Or(base.udom(G), pc(k, G) > 0)
+        return S
+
+    def inv(self, it, env, k):
+        self._setup(it, env)
+        cur, want = self.h.S, self.closed(k)
+        G, U = it.ctx.fresh(LabelSort, 'Gl'), it.ctx.fresh(LabelSort, 'Ul')
+        out = [('cnt', cur.cnt(G, U) == want.cnt(G, U)), ('tot', cur.tot(G) == want.tot(G)), ('udom', cur.udom(G) == want.udom(G))]
+        # everything else must be untouched by the loop
+        i = it.ctx.fresh(I, 'il')
+        out.append(('frame', z3.And(cur.dom(G) == self.base.dom(G), cur.typ(G) == self.base.typ(G), cur.opc(G, U) == self.base.opc(G, U),
+                                    cur.nops(G) == self.base.nops(G), cur.op(G, i) == self.base.op(G, i), cur.in_n == self.base.in_n, cur.out_n == self.base.out_n)))
+        return out
+
+    def install(self, it, env, k):
+        self._setup(it, env)
+        self.h.S = self.closed(k)
